@@ -48,6 +48,7 @@ RULE = (
     "the same image with 2 000-5 000 additional allocated units outside the requested ranges must read the same bytes with "
     "io_large <= io_small + max(64 KiB, io_small/4) and must never touch a byte of the added units. Non-trivial = the added "
     "data is >= 100x (M + requested bytes)... counted when at least one touched structure lies beyond 2^32."
+    ' VHD metadata placed beyond 4 GiB; most compressible grain classes; small requests alternating between the first and last described unit.'
 )
 ASSUMPTIONS = [
     "eagerly loaded directory-level tables (VDI block map, HDS BAT, VMDK grain directory, QCOW2 L1) count as mapping metadata",
